@@ -103,7 +103,8 @@ Record params := {
   prm_leak_child : N;        (* include.c:356 p->standards >= 9 *)
   prm_alias_bounded : bool;  (* _GD_ResolveAlias has a recursion bound (after the proposed fix) *)
   prm_ns_pop : bool;         (* include.c:222: the current namespace is pushed/popped around EVERY inclusion *)
-  prm_nullns : bool          (* include.c:118: a parent root namespace "" is treated like NULL (proposed fix C09-4) *)
+  prm_nullns : bool;         (* include.c:118: a parent root namespace "" is treated like NULL (proposed fix C09-4) *)
+  g_reprz : N                (* parse.c:_GD_InputCode: ".z" is a representation suffix when !pedantic || standards >= g_reprz (0 = never) *)
 }.
 
 (* the values documented in dirfile-format.5 *)
@@ -113,7 +114,7 @@ Definition spec_params : params := {|
   g_alias := 9; g_encoding := 6; g_endian := 5; g_frameoffset := 1; g_hidden := 9;
   g_include := 3; g_namespace := 10; g_protect := 6; g_reference := 6; g_version := 5;
   g_slash := 5; g_barth := 7; g_nsname := 10; g_nsaffix := 10; g_fo_base0 := 9;
-  prm_leak_parent := 9; prm_leak_child := 9; prm_alias_bounded := true; prm_ns_pop := true; prm_nullns := true |}.
+  prm_leak_parent := 9; prm_leak_child := 9; prm_alias_bounded := true; prm_ns_pop := true; prm_nullns := true; g_reprz := 10 |}.
 
 (* ----------------------------------------------------------------- data *)
 Record sett := { t_enc : N; t_end : bool; t_off : Z; t_prot : N }.
@@ -327,10 +328,11 @@ Section Impl.
   (* _GD_CodeFromFrag / _GD_InputCode for the current fragment *)
   Definition i_namef (st : ist) (tok : str) : str * nat :=
     let p := i_p st in let f := i_f st in
-    build_code (opt_str (f_ns f)) (f_px f) (f_sx f) (p_ns p) tok (p_ped p && (p_std p <? g_nsname P)).
+    build_code (opt_str (f_ns f)) (f_px f) (f_sx f) (p_ns p) tok (p_ped p && (p_std p <? g_nsname P)) false.
   Definition i_codef (st : ist) (tok : str) : str :=
     let p := i_p st in let f := i_f st in
-    fst (build_code (opt_str (f_ns f)) (f_px f) (f_sx f) (p_ns p) tok (p_ped p && (p_std p <=? 5))).
+    fst (build_code (opt_str (f_ns f)) (f_px f) (f_sx f) (p_ns p) tok (p_ped p && (p_std p <=? 5))
+                    (negb (g_reprz P =? 0) && pvers_ge p (g_reprz P))).
 
   Definition impl_simple (l : line) (st : ist) : res ist :=
     let p := i_p st in let f := i_f st in let s := f_set f in
@@ -546,10 +548,10 @@ Definition s_frag (st : sst) : frag := {|
 
 Definition s_namef (st : sst) (tok : str) : str * nat :=
   spec_code true (s_root st) (chain_px (s_chain st)) (chain_sx (s_chain st)) (s_cur st) tok
-            (sv_lt (s_ver st) 10).
+            (sv_lt (s_ver st) 10) false.
 Definition s_codef (st : sst) (tok : str) : str :=
   fst (spec_code false (s_root st) (chain_px (s_chain st)) (chain_sx (s_chain st)) (s_cur st) tok
-                 (sv_lt (s_ver st) 6)).
+                 (sv_lt (s_ver st) 6) (sv_ge (s_ver st) 10)).
 
 Definition s_dir_ok (v : option N) (gate : N) : bool := sv_ge v 5 && sv_ge v gate.
 
@@ -727,7 +729,7 @@ Definition dotns_tok (tok : str) : bool :=
   end.
 
 Definition tree_reprlike := tree_feat (fun n => repr_like (undot n)) none_f none_f.
-Definition tree_indexlike := tree_feat index_like index_like none_f.
+Definition tree_indexlike := tree_feat (index_like false) (fun c => index_like false c || index_like true c) none_f.
 Definition tree_dotns := tree_feat none_f none_f dotns_tok.
 (* the static region of the agreement theorem: every token is read alike by
    _GD_BuildCode and by the Standards, no /INCLUDE has a null namespace tag *)
